@@ -89,7 +89,8 @@ def catalogue(prop: str):
             out.append({"name": f"S:{d.name}", "kind": "M", "rule": None, "patch": str(d / "patch.diff")})
     for name, file, old, new, props in TWINS:
         if props is None or prop in props:
-            out.append({"name": f"T:{name}", "kind": "T", "edits": [{"file": file, "old": old, "new": new}]})
+            edits = [{"file": f, "old": o, "new": n} for f, o, n in old] if file == "MULTI" else [{"file": file, "old": old, "new": new}]
+            out.append({"name": f"T:{name}", "kind": "T", "edits": edits})
     return out
 
 
